@@ -150,6 +150,48 @@ let print_dval (heap : rcell list) (root : dval) : string =
   let b = Buffer.create 256 in
   go b root; Buffer.contents b
 
+
+(* ---- extraction model (C16) ---- *)
+let nat_a a = match a with A s -> nat_of_int (int_of_string s) | _ -> failwith "nat"
+let tkind_of (x : sx) : tkind =
+  match x with
+  | A "r" -> KRaw | A "if" -> KIface
+  | L [A "p"; e] -> KPtr (nat_a e)
+  | L [A "sl"; e] -> KSlice (nat_a e)
+  | L [A "ar"; n; e] -> KArray (nat_a n, nat_a e)
+  | L [A "mp"; k; v] -> KMap (nat_a k, nat_a v)
+  | L (A "st" :: fs) -> KStruct (List.map (fun f -> match f with L [A ex; t] -> (ex = "1", nat_a t) | _ -> failwith "sfield") fs)
+  | _ -> failwith "tkind"
+let tyenv_of (x : sx) : tdesc list =
+  match x with
+  | L (A "env" :: ds) ->
+    List.map (fun d -> match d with
+      | L [n; sh; k; c] ->
+        { tname = name_of n; tshort = name_of sh; tkd = tkind_of k;
+          tcodec = (match c with A "n" -> None | L [A "c"; cn] -> Some (name_of cn) | _ -> failwith "codec") }
+      | _ -> failwith "tdesc") ds
+  | _ -> failwith "env"
+let xheap_of (x : sx) : xnode list =
+  match x with
+  | L (A "heap" :: ns) ->
+    List.map (fun n -> match n with
+      | L [t; b] ->
+        { xty = nat_a t;
+          xbd = (match b with
+                 | A "r" -> XRaw | A "nil" -> XNil
+                 | L [A "p"; a] -> XPtr (nat_a a)
+                 | L [A "i"; a] -> XIface (nat_a a)
+                 | L (A "l" :: l) -> XList (List.map nat_a l)
+                 | L (A "m" :: es) -> XMap (List.map (fun e -> match e with L [k; v] -> (nat_a k, nat_a v) | _ -> failwith "mentry") es)
+                 | L (A "s" :: l) -> XStruct (List.map nat_a l)
+                 | _ -> failwith "xbody") }
+      | _ -> failwith "xnode") ns
+  | _ -> failwith "heap"
+let print_maps (tm : (Model.z list * nat) list) (nm : (Model.z list * Model.z list) list) : string =
+  let a = List.sort compare (List.map (fun (k, t) -> string_of_runes k ^ "=" ^ string_of_int (int_of_nat t)) tm) in
+  let b = List.sort compare (List.map (fun (k, v) -> string_of_runes k ^ "=" ^ string_of_runes v) nm) in
+  "tm[" ^ String.concat " " a ^ "] nm[" ^ String.concat " " b ^ "]"
+
 let three_sx (rest : string) =
   (* "(te ...) (tm ...) hex" *)
   let n = String.length rest in
@@ -178,6 +220,21 @@ let handle (line : string) : string =
      | Err _ -> "err"
      | Panic -> "unmodelled"
      | Fuel -> "fuel")
+  | "xtr" ->
+    (match parse_sx ("(" ^ rest ^ ")") with
+     | L [bi; env; heap; root] ->
+       let r = (match root with A "none" -> None | a -> Some (nat_a a)) in
+       (match extract (namemap_of bi) (tyenv_of env) (xheap_of heap) r with
+        | Ok st -> "ok " ^ print_maps st.xtm st.xnm
+        | Err _ -> "err" | Panic -> "unmodelled" | Fuel -> "fuel")
+     | _ -> failwith "xtr")
+  | "tmof" ->
+    (match parse_sx ("(" ^ rest ^ ")") with
+     | L [env; t] ->
+       (match type_map_of (tyenv_of env) (nat_a t) with
+        | Ok tm -> "ok tm[" ^ String.concat " " (List.sort compare (List.map (fun (k, t) -> string_of_runes k ^ "=" ^ string_of_int (int_of_nat t)) tm)) ^ "]"
+        | Err _ -> "err" | Panic -> "unmodelled" | Fuel -> "fuel")
+     | _ -> failwith "tmof")
   | "rootelem" -> string_of_runes (array_root_elem_name (runes_of_string rest))
   | "lower" -> string_of_runes (lower_name (runes_of_string rest))
   | _ -> "unknown-case " ^ line
